@@ -16,11 +16,11 @@ import (
 
 // segSpec describes one media segment file.
 type segSpec struct {
-	Kind  string   `json:"kind"`            // ok | missing | garbage | empty
-	Name  string   `json:"name"`            // file name without directory, e.g. "3.m4s"
-	Tfdt  uint64   `json:"tfdt"`            // decode time of the first fragment
-	Durs  durList  `json:"durs"`            // sample durations (all fragments together), run-length coded in JSON
-	Split int      `json:"split,omitempty"` // >0: samples [split:] go into a second fragment
+	Kind  string  `json:"kind"`            // ok | missing | garbage | empty
+	Name  string  `json:"name"`            // file name without directory, e.g. "3.m4s"
+	Tfdt  uint64  `json:"tfdt"`            // decode time of the first fragment
+	Durs  durList `json:"durs"`            // sample durations (all fragments together), run-length coded in JSON
+	Split int     `json:"split,omitempty"` // >0: samples [split:] go into a second fragment
 	// Enc: how durations are written in the LAST fragment: "trun" (per sample), "tfhd" (tfhd default,
 	// needs equal durations there), "trex" (neither: the default inherited by the loader applies)
 	Enc string `json:"enc"`
